@@ -606,7 +606,7 @@ func oracleParses(res *hx.Result, tc tcase, trees []*lt, out string) {
 				}
 				cls = "parse:" + rootClass(t)
 			}
-			res.Fail(cls, tc, fmt.Sprintf("migrated template %q: expression %q does not parse", out, s.S))
+			failc(res, cls, tc, fmt.Sprintf("migrated template %q: expression %q does not parse", out, s.S))
 			return
 		}
 	}
@@ -690,7 +690,7 @@ func oracleGrouping(res *hx.Result, tc tcase, t *lt) {
 					}
 					if !sub[stripParens(part).String()] {
 						failed = true
-						res.Fail("grouping:operand-not-a-subtree:"+rootClass(n)+">"+rootClass(c), tc,
+						failc(res, "grouping:operand-not-a-subtree:"+rootClass(n)+">"+rootClass(c), tc,
 							fmt.Sprintf("legacy %q: operand %q migrates on its own to %q, which is not a subtree of the migrated %q", n.text(nil), c.text(nil), part.String(), whole.String()))
 						return
 					}
@@ -781,7 +781,7 @@ func oracleRescan(res *hx.Result, tc tcase, out string) {
 		case glued:
 			cls = "rescan:identifier-glued-to-following-text"
 		}
-		res.Fail(cls, tc, fmt.Sprintf("migrated %q re-scans to %v, expected %v", out, got, want))
+		failc(res, cls, tc, fmt.Sprintf("migrated %q re-scans to %v, expected %v", out, got, want))
 	}
 }
 
@@ -824,7 +824,7 @@ func oracleBody(res *hx.Result, tc tcase, out string) {
 		}
 	}
 	if !ok || rest != "" {
-		res.Fail("body:not-compositional", tc, fmt.Sprintf("migrated %q is not the token-wise migration %q...", out, want.String()))
+		failc(res, "body:not-compositional", tc, fmt.Sprintf("migrated %q is not the token-wise migration %q...", out, want.String()))
 	}
 }
 
@@ -850,7 +850,7 @@ func oracleLiteral(res *hx.Result, s string, inConcat bool) {
 		case strings.Contains(s, "\n") && strings.Contains(s, "\""):
 			cls = "literal:newline-and-quote"
 		}
-		res.Fail(cls, map[string]any{"template": tpl}, fmt.Sprintf("literal %q: migrated %q evaluates to %q (migration error %v, evaluation error %v, panic %q)", s, out, got, hasErr, evErr, pan))
+		failc(res, cls, map[string]any{"template": tpl}, fmt.Sprintf("literal %q: migrated %q evaluates to %q (migration error %v, evaluation error %v, panic %q)", s, out, got, hasErr, evErr, pan))
 	}
 }
 
@@ -876,7 +876,7 @@ func oracleValue(res *hx.Result, tc tcase, t *lt, vars []varDecl, out string) (c
 		for _, v := range vars {
 			vs[v.Name] = v.V.render()
 		}
-		res.Fail(cls, map[string]any{"template": tc.Template, "vars": vs, "want": want.render(), "class": cls},
+		failc(res, cls, map[string]any{"template": tc.Template, "vars": vs, "want": want.render(), "class": cls},
 			fmt.Sprintf("legacy %q denotes %q; migrated %q evaluates to %q (evaluation error %v)", tc.Template, want.render(), out, got, evErr))
 	}
 	return true
@@ -1057,6 +1057,20 @@ func randOptions(r *hx.Rand) options {
 	return options{DefaultToSelf: r.Bool(), URLEncode: r.Chance(1, 3), RawDates: r.Bool()}
 }
 
+// failc records a direct-oracle failure, at most ONE per class: hx.Result keeps at most 50 failures in all, and this
+// check has ~30 known classes that fail on every run — with three kept per class a new class found late in the run
+// would be dropped from the list bin/check decides on.  Further failures of a class are only counted.
+var failedClasses = map[string]bool{}
+
+func failc(res *hx.Result, class string, input any, detail string) {
+	if failedClasses[class] {
+		res.Dist("oracle_fail:" + class)
+		return
+	}
+	failedClasses[class] = true
+	res.Fail(class, input, detail)
+}
+
 type pendingCase struct {
 	tc     tcase
 	out    string
@@ -1102,7 +1116,7 @@ func main() {
 		res.Dist("stream=" + stream)
 		if pan != "" {
 			res.OracleChecks++
-			res.Fail("panic:migrate", tc, "MigrateTemplate panicked: "+pan)
+			failc(res, "panic:migrate", tc, "MigrateTemplate panicked: "+pan)
 			return "", true
 		}
 		if hasErr {
@@ -1158,7 +1172,7 @@ func main() {
 					out, hasErr, _ := migrateReal(in.Template, in.Options)
 					got, evErr := evalMigrated(out, vars)
 					if hasErr || evErr || got != *in.Want {
-						res.Fail(in.Class, rj.FailingInput.Input, fmt.Sprintf("legacy %q denotes %q; migrated %q evaluates to %q (evaluation error %v)", in.Template, *in.Want, out, got, evErr))
+						failc(res, in.Class, rj.FailingInput.Input, fmt.Sprintf("legacy %q denotes %q; migrated %q evaluates to %q (evaluation error %v)", in.Template, *in.Want, out, got, evErr))
 					}
 				}
 			}
@@ -1206,7 +1220,7 @@ func main() {
 		out, hasErr, _ := migrateReal(c[0], options{})
 		got, evErr := evalMigrated(out, nil)
 		if hasErr || evErr || got != c[1] {
-			res.Fail("grouping:operand-regroups", map[string]any{"template": c[0]}, fmt.Sprintf("legacy %q denotes %q; migrated %q evaluates to %q", c[0], c[1], out, got))
+			failc(res, "grouping:operand-regroups", map[string]any{"template": c[0]}, fmt.Sprintf("legacy %q denotes %q; migrated %q evaluates to %q", c[0], c[1], out, got))
 		}
 	}
 
@@ -1221,7 +1235,7 @@ func main() {
 		out, hasErr, _ := migrateReal(c[0], options{})
 		got, evErr := evalMigrated(out, nil)
 		if hasErr || evErr || got != c[1] {
-			res.Fail(c[2], map[string]any{"template": c[0]}, fmt.Sprintf("legacy %q denotes %q; migrated %q evaluates to %q (evaluation error %v)", c[0], c[1], out, got, evErr))
+			failc(res, c[2], map[string]any{"template": c[0]}, fmt.Sprintf("legacy %q denotes %q; migrated %q evaluates to %q (evaluation error %v)", c[0], c[1], out, got, evErr))
 		}
 	}
 
@@ -1232,7 +1246,7 @@ func main() {
 		out, hasErr, _ := migrateReal(c[0], options{})
 		got, evErr := evalMigrated(out, []varDecl{{Name: "contact.n1", V: rvInt(3)}, {Name: "contact.s1", V: rvText("fox")}, {Name: "contact.1_x", V: rvInt(7)}})
 		if hasErr || evErr || got != c[1] {
-			res.Fail("rescan:identifier-glued-to-following-text", map[string]any{"template": c[0]}, fmt.Sprintf("legacy %q denotes %q; migrated %q evaluates to %q (evaluation error %v)", c[0], c[1], out, got, evErr))
+			failc(res, "rescan:identifier-glued-to-following-text", map[string]any{"template": c[0]}, fmt.Sprintf("legacy %q denotes %q; migrated %q evaluates to %q (evaluation error %v)", c[0], c[1], out, got, evErr))
 		}
 	}
 
@@ -1248,7 +1262,7 @@ func main() {
 		for _, s := range scanReal(out, flows.RunContextTopLevels) {
 			if s.T == 2 {
 				if _, ok := parseReal(s.S); !ok {
-					res.Fail("parse:wrong-arity-call-migrates-to-garbage", map[string]any{"template": tpl}, fmt.Sprintf("%q migrates without error to %q, whose expression %q does not parse", tpl, out, s.S))
+					failc(res, "parse:wrong-arity-call-migrates-to-garbage", map[string]any{"template": tpl}, fmt.Sprintf("%q migrates without error to %q, whose expression %q does not parse", tpl, out, s.S))
 					break
 				}
 			}
@@ -1262,7 +1276,7 @@ func main() {
 		out, hasErr, _ := migrateReal(c[0], options{})
 		got, evErr := evalMigrated(out, []varDecl{{Name: "contact.n1", V: rvInt(3)}})
 		if hasErr || evErr || got != c[1] {
-			res.Fail("body:new-toplevel-identifier-becomes-live", map[string]any{"template": c[0]}, fmt.Sprintf("legacy %q denotes %q; migrated %q evaluates to %q", c[0], c[1], out, got))
+			failc(res, "body:new-toplevel-identifier-becomes-live", map[string]any{"template": c[0]}, fmt.Sprintf("legacy %q denotes %q; migrated %q evaluates to %q", c[0], c[1], out, got))
 		}
 	}
 
@@ -1371,13 +1385,13 @@ func main() {
 				res.Eval(fmt.Sprintf("%q %v", tc.Template, tc.Options), t.nontrivial())
 				res.Dist("stream=typed-oracle-only")
 				if pan != "" {
-					res.Fail("panic:migrate", tc, pan)
+					failc(res, "panic:migrate", tc, pan)
 					continue
 				}
 			}
 			if hasErr {
 				res.OracleChecks++
-				res.Fail("parse:legacy-rejected:"+rootClass(t), tc, "MigrateTemplate reported an error for a well-formed legacy expression")
+				failc(res, "parse:legacy-rejected:"+rootClass(t), tc, "MigrateTemplate reported an error for a well-formed legacy expression")
 				continue
 			}
 			if oracleValue(res, tc, t, vars, out) {
@@ -1460,7 +1474,7 @@ func main() {
 			res.Dist("stream=definitions")
 			if err != nil {
 				res.OracleChecks++
-				res.Fail("definition:migrate-error", map[string]any{"definition": i}, err.Error())
+				failc(res, "definition:migrate-error", map[string]any{"definition": i}, err.Error())
 				continue
 			}
 			for _, t := range tpls {
@@ -1493,7 +1507,7 @@ func main() {
 		res.OracleChecks++
 		out, hasErr, _ := migrateReal(h.TC.Template, h.TC.Options)
 		if out != h.Out && h.Origin != "definition" || hasErr != h.Err && h.Origin != "definition" {
-			res.Fail(stateClass(h.TC.Template), h.TC, fmt.Sprintf("migrated again at the end of the run: %q, the first time: %q", out, h.Out))
+			failc(res, stateClass(h.TC.Template), h.TC, fmt.Sprintf("migrated again at the end of the run: %q, the first time: %q", out, h.Out))
 		}
 	}
 	ctxMaps := map[bool]map[string]string{}
@@ -1521,7 +1535,7 @@ func main() {
 			res.OracleChecks++
 			h := history[i]
 			if j < len(wo.Outs) && (wo.Outs[j].Out != h.Out || (wo.Outs[j].Err != h.Err && h.Origin != "definition")) {
-				res.Fail(stateClass(h.TC.Template), map[string]any{"template": h.TC.Template, "options": h.TC.Options, "origin": h.Origin},
+				failc(res, stateClass(h.TC.Template), map[string]any{"template": h.TC.Template, "options": h.TC.Options, "origin": h.Origin},
 					fmt.Sprintf("%s: migrated to %q in this process (after other migrations), to %q in a fresh process that only uses RawDates=%v", h.Origin, h.Out, wo.Outs[j].Out, raw))
 			}
 		}
